@@ -122,12 +122,17 @@ def gen_case(chk, i):
             ops[idx + 1:idx + 1] = extra
         secs.append(ops)
         infos.append(inf)
+    if nth > 1 and i % 2 == 0:
+        # all threads reach ovni_thread_free (and the relocation) together
+        for ops in secs:
+            k = len(ops) - 1 - ops[::-1].index("free")
+            ops.insert(k, "barrier")
     out = ["proc 1 node%d %d" % (i % 3, 400)]
     for ops in secs:
         out.append("thread"); out.extend(ops); out.append("end")
     out.append("fini")
     return {"case": i, "mode": mode, "threads": nth, "targets": infos[0]["targets"],
-            "tmpdir": (i % 5 == 4), "shortwrite": (i if i % 4 == 3 else 0), "nostdin": (i % 7 == 5), "script": "\n".join(out) + "\n"}
+            "tmpdir": (i % 5 == 4) or (nth > 1 and i % 4 == 0), "shortwrite": (i if i % 4 == 3 else 0), "nostdin": (i % 7 == 5), "script": "\n".join(out) + "\n"}
 
 
 def validate_stream(sdir):
